@@ -2,10 +2,11 @@
 //
 // A case is a list of integers.  For property Cnn the extracted Coq function
 // Model.dispatch nn sub args is reached through the OCaml driver (one process per worker):
-//   sub 0: the model's output on the case        (X: must equal the implementation's output)
-//   sub 1: the specification's output on the case (F: must match the implementation's output;
-//          the token WILD in the specification's output matches anything)
-//   sub 2: (relational properties) spec_ok applied to put_list(case) ++ put_list(implementation output) -> [1] / [0]
+//
+//	sub 0: the model's output on the case        (X: must equal the implementation's output)
+//	sub 1: the specification's output on the case (F: must match the implementation's output;
+//	       the token WILD in the specification's output matches anything)
+//	sub 2: (relational properties) spec_ok applied to put_list(case) ++ put_list(implementation output) -> [1] / [0]
 package main
 
 import (
@@ -40,21 +41,22 @@ const (
 )
 
 type Prop struct {
-	ID       string
-	Num      int
-	NumOf    func(in []int64) int // optional: the dispatch number of a case (a family evaluated by another Run file, e.g. Run/C106.v); default Num
-	SpecMode string // "equal" (sub 1 output vs impl), "rel" (sub 2 verdict), "none"
-	Gen      func(c *Ctx)
-	Impl     func(in []int64) []int64
-	ImplM    func(in, model []int64) []int64    // optional: implementation driven by the model's answer (schedules)
-	Shrink   func(in []int64) [][]int64         // optional: smaller candidate inputs
-	Pure     bool                               // the implementation run of a case touches only objects of its own: the same case must give the same result while other calls run at the same time (concurrent phase)
-	Isolate  func(in []int64) bool              // optional: cases whose implementation run may kill the process (an allocation of 2^40 bytes is a fatal error, not a panic) run in a child process with an address-space limit
-	Known    func(in, out []int64) string       // optional: id of the known finding this failing case belongs to
-	Oracle   func(q []int64) []int64            // optional: answers ASK queries of the model
-	XProj    func(in, impl []int64) []int64     // optional: the part of the implementation's output the model can predict (the rest depends on internal nondeterminism the harness cannot observe, e.g. Go map order); X compares the model with this projection, the judge (sub 1/2) always sees the whole output.  Default: the whole output.
-	Describe func(in []int64) string            // optional: human-readable rendering for replays
-	Rule     string                             // how cases are generated; what counts as non-trivial
+	ID         string
+	Num        int
+	NumOf      func(in []int64) int // optional: the dispatch number of a case (a family evaluated by another Run file, e.g. Run/C106.v); default Num
+	SpecMode   string               // "equal" (sub 1 output vs impl), "rel" (sub 2 verdict), "none"
+	Gen        func(c *Ctx)
+	Impl       func(in []int64) []int64
+	ImplM      func(in, model []int64) []int64 // optional: implementation driven by the model's answer (schedules)
+	Shrink     func(in []int64) [][]int64      // optional: smaller candidate inputs
+	JudgeLimit int                             // relational properties: cases longer than this are not given to the judge (one evaluation can take many minutes): implementation = model is accepted (the model's own output is proved to pass the judge), a difference is reported as a difference
+	Pure       bool                            // the implementation run of a case touches only objects of its own: the same case must give the same result while other calls run at the same time (concurrent phase)
+	Isolate    func(in []int64) bool           // optional: cases whose implementation run may kill the process (an allocation of 2^40 bytes is a fatal error, not a panic) run in a child process with an address-space limit
+	Known      func(in, out []int64) string    // optional: id of the known finding this failing case belongs to
+	Oracle     func(q []int64) []int64         // optional: answers ASK queries of the model
+	XProj      func(in, impl []int64) []int64  // optional: the part of the implementation's output the model can predict (the rest depends on internal nondeterminism the harness cannot observe, e.g. Go map order); X compares the model with this projection, the judge (sub 1/2) always sees the whole output.  Default: the whole output.
+	Describe   func(in []int64) string         // optional: human-readable rendering for replays
+	Rule       string                          // how cases are generated; what counts as non-trivial
 }
 
 var props = map[string]*Prop{}
@@ -345,8 +347,8 @@ func (p *Prop) numOf(in []int64) int {
 	return p.Num
 }
 
-func (c *Ctx) Note(s string)      { c.mu.Lock(); c.notes = append(c.notes, s); c.mu.Unlock() }
-func (c *Ctx) SetExhaustive()     { c.exhaustive = true }
+func (c *Ctx) Note(s string)  { c.mu.Lock(); c.notes = append(c.notes, s); c.mu.Unlock() }
+func (c *Ctx) SetExhaustive() { c.exhaustive = true }
 func (c *Ctx) Count(h, k string) {
 	c.mu.Lock()
 	if c.hist[h] == nil {
@@ -417,6 +419,16 @@ func (t *T) eval2(in []int64) (*Failure, []int64) {
 		}
 		specOK = matchSpec(spec, impl)
 	case "rel":
+		if p.JudgeLimit > 0 && len(in) > p.JudgeLimit {
+			ximpl := impl
+			if p.XProj != nil {
+				ximpl = p.XProj(in, impl)
+			}
+			if eqTok(model, ximpl) {
+				return nil, impl
+			}
+			return &Failure{In: in, Impl: clip(impl, 4000), Model: clip(model, 4000), Spec: []int64{-1000042}, Class: "diff"}, impl
+		}
 		arg := append(PutList(in), PutList(impl)...)
 		if p.Oracle != nil {
 			spec = t.M.CallOracle(p, 2, arg)
@@ -504,7 +516,7 @@ func clip(l []int64, n int) []int64 {
 func (c *Ctx) shrink(t *T, f Failure) Failure {
 	p := c.P
 	cands := p.Shrink
-	if cands == nil {
+	if cands == nil || len(f.In) > 3000 { // very large cases: one evaluation of the judge can take minutes; reported as found
 		return f
 	}
 	orig := len(f.In)
